@@ -6,15 +6,15 @@ from vf.problems import rng_for, dtype_of
 
 LEVEL = "exploration"
 RULE = ("one case = (solver in {nonlinear_roots, hybrj, newtontrustregion}, dispatch path float64->MINPACK / longdouble->built-in dogleg, system family "
-        "(diagonally dominant smooth, singular Jacobian at the root, rootless, flat asymptote exp(x)+c, badly scaled), n=1..12 and array shape, with/without "
+        "(diagonally dominant smooth, singular Jacobian at the root, rootless, flat asymptote exp(x)+c, badly scaled, regular with zero-diagonal Jacobian), n=1..12 and array shape, with/without "
         "user Jacobian, guess quality, tolerance); oracle: success => ||F(x)|| <= 20*tol*(n+||x||)*max(1,||J(x)||) and result shape = guess shape; otherwise "
         "failure must be reported (flag False or LinAlgError/ValueError); plus in situ: every accepted implicit stage solve of real integrations; "
         "non-trivial = solver returned or raised an admissible error; distinct by (solver, path, family, n, jac, guess, tol, seed)")
 ASSUMPTIONS = ["the Jacobian norm converts MINPACK's step-based xtol into a residual bound; main families keep ||J|| in [0.1,10]",
                "failure on a solvable system is counted (rate in evidence) but is not a violation of this property"]
-FLOORS = {"quick": {"solver_calls": 700, "success_minpack": 100, "failure_minpack": 30, "success_dogleg": 60, "failure_dogleg": 20, "rootless_cases": 120, "insitu_stage_solves": 200},
-          "thorough": {"solver_calls": 7000, "success_minpack": 1000, "failure_minpack": 300, "success_dogleg": 600, "failure_dogleg": 200, "rootless_cases": 1200, "insitu_stage_solves": 2000}}
-FAMILIES = ["dd", "singular2", "singular3", "rootless_quadratic", "flat", "scaled", "dd"]
+FLOORS = {"quick": {"solver_calls": 700, "success_minpack": 100, "failure_minpack": 30, "success_dogleg": 60, "failure_dogleg": 20, "rootless_cases": 120, "insitu_stage_solves": 200, "zero_diagonal_jacobian_cases_dogleg": 25, "small_iteration_budget_failures_ntr": 10, "small_iteration_budget_cases_dogleg": 60},
+          "thorough": {"solver_calls": 7000, "success_minpack": 1000, "failure_minpack": 300, "success_dogleg": 600, "failure_dogleg": 200, "rootless_cases": 1200, "insitu_stage_solves": 2000, "zero_diagonal_jacobian_cases_dogleg": 250, "small_iteration_budget_failures_ntr": 100, "small_iteration_budget_cases_dogleg": 600}}
+FAMILIES = ["dd", "singular2", "singular3", "rootless_quadratic", "flat", "scaled", "dd", "hollow"]
 SHAPES = {1: [(), (1,)], 2: [(2,)], 3: [(3,)], 4: [(4,), (2, 2)], 6: [(6,), (2, 3)], 8: [(8,)], 12: [(12,), (3, 4)]}
 K = 20.0
 
@@ -30,7 +30,17 @@ class System:
         self.c = dtype.type(10 ** rng.uniform(-4, 0))
         self.S = (10 ** rng.uniform(-3, 3, n)).astype(dtype)
         self.b = (self.A @ self.xs + dtype.type(0.3) * np.sin(self.xs)).astype(dtype)
-        self.has_root = fam in ("dd", "singular2", "singular3", "scaled")
+        if fam == "hollow" and n < 2:
+            fam = self.fam = "dd"
+        if fam == "hollow":
+            # regular, well-conditioned system whose Jacobian has an identically ZERO diagonal (cyclic coupling): H x + 0.1 sin(roll(x)) = b
+            H = rng.uniform(0.3, 1.0, (n, n)) * rng.choice([-1, 1], (n, n)) * 0.15
+            for i in range(n):
+                H[i, i] = 0.0
+                H[i, (i + 1) % n] = float(rng.choice([-1, 1])) * float(rng.uniform(1.5, 3.0))
+            self.A = H.astype(dtype)
+            self.b = (self.A @ self.xs + dtype.type(0.1) * np.sin(np.roll(self.xs, -1))).astype(dtype)
+        self.has_root = fam in ("dd", "singular2", "singular3", "scaled", "hollow")
         self.calls = 0
 
     def F(self, x, *a, **k):
@@ -39,6 +49,8 @@ class System:
         f = self.fam
         if f == "dd":
             out = self.A @ xf + xf.dtype.type(0.3) * np.sin(xf) - self.b
+        elif f == "hollow":
+            out = self.A @ xf + xf.dtype.type(0.1) * np.sin(np.roll(xf, -1)) - self.b
         elif f == "scaled":
             out = self.S * (self.A @ xf + xf.dtype.type(0.3) * np.sin(xf) - self.b)
         elif f == "singular2":
@@ -56,6 +68,11 @@ class System:
         f = self.fam
         if f == "dd":
             J = self.A + np.diag(xf.dtype.type(0.3) * np.cos(xf))
+        elif f == "hollow":
+            n_ = len(xf)
+            J = np.array(self.A, copy=True)
+            for i in range(n_):
+                J[i, (i + 1) % n_] += xf.dtype.type(0.1) * np.cos(xf[(i + 1) % n_])
         elif f == "scaled":
             J = self.S[:, None] * (self.A + np.diag(xf.dtype.type(0.3) * np.cos(xf)))
         elif f == "singular2":
@@ -80,6 +97,7 @@ def gen_cases(tier, seed):
         dtype = str(rng.choice(["float64", "longdouble"]))
         cases.append(dict(kind="solve", solver=solver, dtype=dtype, fam=FAMILIES[i % len(FAMILIES)], n=n, shape=list(shape), jac=bool(rng.random() < 0.6) or solver == "hybrj",
                           guess=str(rng.choice(["good", "bad", "far", "huge"])), tol=str(rng.choice(["none", "1e-10", "1e-6"])), pseed=int(rng.integers(1 << 30)),
+                          maxiter=int(rng.choice([0, 0, 3, 6, 12, 32])), use_scipy=bool(rng.random() < 0.8),
                           cost=1 + n / 3.0 + (4 if dtype == "longdouble" else 0)))
     for i in range(6 if tier == "quick" else 60):
         cases.append(dict(kind="insitu", method=str(rng.choice(["RadauIIA5", "GaussLegendre4", "BackwardEuler", "LobattoIIIC4", "CrankNicolson"])),
@@ -101,22 +119,27 @@ def run_case(spec):
     tol_eff = float(D.tol_epsilon(dt)) if tol is None else tol
     path = "minpack" if (spec["solver"] == "nonlinear_roots" and spec["dtype"] == "float64") else ("dogleg" if spec["solver"] in ("nonlinear_roots", "hybrj") else "ntr")
     rec = util.Rec(sig="%s|%s|%s|%d|%s|%s|%s|%s|%d" % (spec["solver"], spec["dtype"], spec["fam"], spec["n"], spec["shape"], spec["jac"], spec["guess"], spec["tol"], spec["pseed"] % 53))
-    feats = {"solver": spec["solver"], "path": path, "dtype": spec["dtype"], "fam": spec["fam"], "jac": spec["jac"], "guess": spec["guess"], "has_root": S.has_root}
+    feats = {"solver": spec["solver"], "path": path, "dtype": spec["dtype"], "fam": S.fam, "jac": spec["jac"], "guess": spec["guess"], "has_root": S.has_root}
     jac = S.J if spec["jac"] else None
     if len(S.shape) == 0 and jac is not None:
         jac = lambda x, *a, **k: S.J(np.atleast_1d(x))   # noqa
     import warnings
+    mk = {"maxiter": spec["maxiter"]} if spec.get("maxiter") else {}     # an iteration budget that runs out is a failure, never a success
+    if mk:
+        feats["maxiter"] = "small"
+    if spec["solver"] == "nonlinear_roots" and not spec.get("use_scipy", True) and path == "minpack":
+        path = feats["path"] = "dogleg"
     try:
         with warnings.catch_warnings():
             warnings.simplefilter("ignore")
             if spec["solver"] == "nonlinear_roots":
-                x, info = opt.nonlinear_roots(S.F, x0, jac=jac, tol=tol)
+                x, info = opt.nonlinear_roots(S.F, x0, jac=jac, tol=tol, use_scipy=spec.get("use_scipy", True), **mk)
                 ok = bool(info[0])
             elif spec["solver"] == "hybrj":
-                x, info = opt.hybrj(S.F, x0, jac, tol=tol)
+                x, info = opt.hybrj(S.F, x0, jac, tol=tol, **mk)
                 ok = bool(info[0])
             else:
-                x, info = opt.newtontrustregion(S.F, x0, jac=jac, tol=tol)
+                x, info = opt.newtontrustregion(S.F, x0, jac=jac, tol=tol, **mk)
                 ok = bool(info[0])
     except (np.linalg.LinAlgError, ValueError) as e:
         rec.bump("solver_calls")
@@ -129,8 +152,14 @@ def run_case(spec):
         return rec.out()
     rec.bump("solver_calls")
     rec.nontrivial = True
+    if mk:
+        rec.bump("small_iteration_budget_cases_" + path)
+        if not ok:
+            rec.bump("small_iteration_budget_failures_" + path)
     if not S.has_root:
         rec.bump("rootless_cases")
+    if S.fam == "hollow":
+        rec.bump("zero_diagonal_jacobian_cases_" + path)
     x = np.asarray(x)
     rec.sample = {"spec": spec, "success": ok, "rhs_calls": S.calls}
     if ok:
